@@ -505,6 +505,7 @@ func genStmt0(r *Rand, a []KV, want bool, depth int, top bool) Stmt {
 				a, b = b, a
 			}
 			form := Pick(r, []string{
+				fmt.Sprintf("[%d:][:%d]", a, b-a), fmt.Sprintf("[:%d][%d:]", b, a), fmt.Sprintf("[%d:][:-%d]", a, nr-b+1), fmt.Sprintf("[-%d:][%d:%d]", nr, a, b),
 				fmt.Sprintf("[%d:%d]", a, b), fmt.Sprintf("[%d:]", a), fmt.Sprintf("[:%d]", b),
 				fmt.Sprintf("[-%d:]", nr-a), fmt.Sprintf("[%d:-%d]", a, nr-b+1), fmt.Sprintf("[-%d:-%d]", nr-a+1, nr-b+1),
 				fmt.Sprintf("[%d:%d]", a, nr+3), fmt.Sprintf("[-%d:]", nr+2),
@@ -608,7 +609,8 @@ func genStmt0(r *Rand, a []KV, want bool, depth int, top bool) Stmt {
 			if a > b {
 				a, b = b, a
 			}
-			form := Pick(r, []string{fmt.Sprintf("[%d]", i), fmt.Sprintf("[-%d]", n-i), fmt.Sprintf("[%d:%d]", a, b), fmt.Sprintf("[-%d:]", n-a), fmt.Sprintf("[:%d]", b), fmt.Sprintf("[%d:%d]", a, n+2)})
+			form := Pick(r, []string{fmt.Sprintf("[%d]", i), fmt.Sprintf("[-%d]", n-i), fmt.Sprintf("[%d:%d]", a, b), fmt.Sprintf("[-%d:]", n-a), fmt.Sprintf("[:%d]", b), fmt.Sprintf("[%d:%d]", a, n+2),
+				fmt.Sprintf("[%d:][:%d]", a, b-a), fmt.Sprintf("[:%d][%d:]", b, a), fmt.Sprintf("[%d:][0]", a), fmt.Sprintf("[:%d][-1]", b)})
 			got, ok := resolveSel(sel+form, Val{K: "map", M: []KV{kv}})
 			if ok && got.K == "int" {
 				if want {
@@ -1162,7 +1164,7 @@ func genWorld(r *Rand, cfg GenCfg) Plan {
 	mkCheck := func() *CheckSpec {
 		ck := &CheckSpec{Inv: c.inv.Label, Variants: vlabels}
 		if faulty && r.Chance(0.2) && len(c.inv.Prf) > 0 {
-			ck.LFaults = []LoaderFault{{Call: r.Intn(len(c.inv.Prf)), Kind: Pick(r, []string{"notfound", "error"})}}
+			ck.LFaults = []LoaderFault{{Call: r.Intn(len(c.inv.Prf)), Kind: Pick(r, []string{"notfound", "error", "notfound", "error", "nilnil", "panic"})}}
 			if r.Chance(0.35) && len(dl) > 0 {
 				ck.LFaults[0].Kind, ck.LFaults[0].With = "swap", dl[r.Intn(len(dl))]
 			}
@@ -1404,10 +1406,16 @@ func genWorld(r *Rand, cfg GenCfg) Plan {
 		}
 		g.issueInv(inv2)
 		g.emit(WStep{Op: "ship", Ship: g.shipSpec(append(append([]string{}, dl...), append(append([]string{}, il...), inv2.Label)...), false)})
+		// (on the store's objects the conforming invocation goes first, on the constructed objects -
+		// fresh ones - the other one does: whichever evaluation comes first must not shape the next)
 		for _, prov := range []string{"", "dlg-built"} {
-			g.emit(WStep{Op: "check", Check: &CheckSpec{Inv: c.inv.Label, Prov: prov}})
-			g.emit(WStep{Op: "check", Check: &CheckSpec{Inv: inv2.Label, Prov: prov}})
-			g.emit(WStep{Op: "check", Check: &CheckSpec{Inv: c.inv.Label, Prov: prov}})
+			a, b := c.inv.Label, inv2.Label
+			if prov != "" {
+				a, b = b, a
+			}
+			g.emit(WStep{Op: "check", Check: &CheckSpec{Inv: a, Prov: prov}})
+			g.emit(WStep{Op: "check", Check: &CheckSpec{Inv: b, Prov: prov}})
+			g.emit(WStep{Op: "check", Check: &CheckSpec{Inv: a, Prov: prov}})
 		}
 		g.note("sibling:second-args")
 	}
